@@ -9,6 +9,8 @@ into one local store while sharing one hash-state database; real threads
 import json
 import os
 
+ISOLATE = False  # every case already runs in its own forked child (run_case / probe)
+
 from .. import ref
 from ..lab import CONTENTS, LFS, MD5, make_odb
 from ..sched import HarnessError, ProcSched, ThreadSched, explore, read_point
